@@ -43,9 +43,24 @@ var c06IDs = map[string][]string{
 	"kids":    {"id-th1", "id-th10", "id-th3", c06Long("th")},
 	"kids0":   {"id-th1", "id-th10", "id-th3", c06Long("th")},
 	"targets": {"id-tg1", "id-tg10", "id-tg3", c06Long("tg")},
-	"deps":    {"id-dp1", "id-dp2", "id-dp3", "id-dp4"},
-	"holders": {"id-ho1", "id-ho2"},
-	"owned":   {"id-ow1", "id-ow2", "id-ow3", "id-ow4"},
+	// ... and the referring stores have ids that also occur in the store they refer to (a record that re-uses the id
+	// of its owner): id-th3 in deps and holders, id-tg1 in owned
+	"deps":    {"id-dp1", "id-dp2", "id-dp3", "id-dp4", "id-th3"},
+	"holders": {"id-ho1", "id-ho2", "id-th3"},
+	"owned":   {"id-ow1", "id-ow2", "id-ow3", "id-ow4", "id-tg1"},
+}
+
+// c06NameMax is a name of exactly bbolt.MaxKeySize bytes: the longest value a unique index can hold
+var c06NameMax = "n-max-" + strings.Repeat("m", 32768-len("n-max-"))
+
+// c06CfgFor returns the configuration, optionally with every symbol persisted under a key that differs from its name.
+func c06CfgFor(keyed bool) kit.WorldCfg {
+	cfg := c06Cfg
+	cfg.Stores = append([]kit.StoreCfg(nil), c06Cfg.Stores...)
+	for i := range cfg.Stores {
+		cfg.Stores[i].Keyed = keyed
+	}
+	return cfg
 }
 
 type c06Case struct {
@@ -88,7 +103,8 @@ func genC06(t *rapid.T) c06Case {
 		}
 		return out
 	}
-	h := kit.GenHistory(t, c06Cfg, 18, 3, true, 75, func(t *rapid.T, l string, m *kit.Model) kit.Op {
+	cfg := c06CfgFor(rapid.IntRange(0, 2).Draw(t, "keyed") == 0)
+	h := kit.GenHistory(t, cfg, 18, 3, true, 75, func(t *rapid.T, l string, m *kit.Model) kit.Op {
 		x := rapid.IntRange(0, 99).Draw(t, l+"_what")
 		if x < 30 && len(m.Ents["things"]) > 0 && len(m.Ents["targets"]) > 0 {
 			// link operation
@@ -173,7 +189,19 @@ func genC06(t *rapid.T) c06Case {
 		case "owned":
 			u.Refs = refsTo("targets")
 		}
-		return kit.GenEntOpM(t, l, store, u, m)
+		op := kit.GenEntOpM(t, l, store, u, m)
+		if op.Spec != nil && (store == "things" || store == "targets") && rapid.IntRange(0, 11).Draw(t, l+"_maxName") == 0 {
+			op.Spec.Name = c06NameMax
+		}
+		if op.Spec != nil && (store == "deps" || store == "holders" || store == "owned") && rapid.IntRange(0, 5).Draw(t, l+"_sameIdRef") == 0 {
+			// the record refers to the entity whose id it shares
+			for _, shared := range []string{"id-th3", "id-tg1"} {
+				if op.ID == shared {
+					op.Spec.Ref = kit.Sp(shared)
+				}
+			}
+		}
+		return op
 	})
 	if rapid.IntRange(0, 2).Draw(t, "deleteRcOnlyEntity") == 0 {
 		// delete an entity of the store that has ref-counted links only, while it is linked
@@ -184,6 +212,20 @@ func genC06(t *rapid.T) c06Case {
 				break
 			}
 		}
+	}
+	if rapid.IntRange(0, 2).Draw(t, "sameIdRecord") == 0 {
+		// a record that shares the id of the entity it refers to is created (if need be, with the entity) and deleted again
+		pair := [][3]string{{"holders", "things", "id-th3"}, {"deps", "things", "id-th3"}, {"owned", "targets", "id-tg1"}}[rapid.IntRange(0, 2).Draw(t, "sameIdPair")]
+		m0 := replayModel(h)
+		if _, ok := m0.Ents[pair[1]][pair[2]]; !ok {
+			h.Txs = append(h.Txs, kit.TxSpec{Ops: []kit.Op{{Kind: "create", Store: pair[1], ID: pair[2], Spec: &kit.EntSpec{Name: "n-shared-id"}}}})
+		}
+		if _, ok := m0.Ents[pair[0]][pair[2]]; !ok {
+			h.Txs = append(h.Txs, kit.TxSpec{Ops: []kit.Op{{Kind: "create", Store: pair[0], ID: pair[2], Spec: &kit.EntSpec{Name: "n-record", Ref: kit.Sp(pair[2])}}}})
+		} else {
+			h.Txs = append(h.Txs, kit.TxSpec{Ops: []kit.Op{{Kind: "update", Store: pair[0], ID: pair[2], Spec: &kit.EntSpec{Name: "n-record", Ref: kit.Sp(pair[2])}}}})
+		}
+		h.Txs = append(h.Txs, kit.TxSpec{Ops: []kit.Op{{Kind: "delete", Store: pair[0], ID: pair[2]}}})
 	}
 	if rapid.IntRange(0, 2).Draw(t, "systemDeleteOfReferenced") == 0 {
 		// a delete of an entity that is still referenced through a restrict wiring, issued from a system context:
@@ -209,7 +251,9 @@ func genC06(t *rapid.T) c06Case {
 	var cands [][2]string
 	for _, s := range []string{"things", "targets"} {
 		for _, id := range c06IDs[s] {
-			if _, ok := m.Ents[s][id]; ok {
+			// (not the two ids that records of other stores share: the walk over the file could not tell the victim's
+			// id from theirs; deletes of those entities and of the records are judged by the model invariants)
+			if _, ok := m.Ents[s][id]; ok && id != "id-th3" && id != "id-tg1" {
 				cands = append(cands, [2]string{s, id})
 			}
 		}
